@@ -1,2 +1,77 @@
-(* Property theorems for C24 (statements only; proofs in Proofs.v). *)
-From VP Require Import Base.Tactics Watermark.Model.
+(* Property theorems for C24.  Statements only; proofs in Proofs.v.  All theorems are
+   about [wstep] / [estep] / [e_event] of Watermark/Run.v and Model.v, the definitions the
+   correspondence check evaluates against the Rust code. *)
+From VP Require Import Base.Tactics Watermark.Model Watermark.Run Watermark.Proofs.
+Open Scope Z_scope.
+
+(* Each source's watermark never decreases: over any op sequence (register / observe /
+   advance, any sources, any disorder), from any tracker state, for every source name.
+   [ops_ok]: a name is registered again only while it has no watermark yet. *)
+Theorem C24_monotone : forall ops t n,
+  ops_ok t ops -> wm_le (wm_of t n) (wm_of (fold_left wstep ops t) n).
+Proof. exact run_monotone. Qed.
+
+(* The effective watermark is the minimum over the sources that have a watermark (and there
+   is none iff no source has one), after every op sequence. *)
+Theorem C24_effective_min : forall ops,
+  ops_ok tr_new ops ->
+  let t := fold_left wstep ops tr_new in
+  match tr_eff t with
+  | Some w => is_min w (tr_src t)
+  | None => forall n s, In (n, s) (tr_src t) -> s_wm s = None
+  end.
+Proof.
+  intros ops Hok t. apply eff_ok_spec. apply run_eff_ok; [exact Hok | exact eff_ok_new].
+Qed.
+
+(* Late data: for every program (streams with optional .watermark / .allowed_lateness) and
+   every history of events, external watermark advances and registrations, an event is
+   dropped only if there is an effective watermark wm -- the minimum over the sources that
+   have one -- with ts < wm, and ts < wm - lateness for every stream consuming the event's
+   type (a stream without .allowed_lateness counting as lateness 0). *)
+Theorem C24_late_only_if : forall streams ops ty ts,
+  eops_ok (load_streams streams) ops ->
+  let e := fold_left enext ops (load_streams streams) in
+  snd (e_event e ty ts) = false ->
+  exists t wm, e_tr e = Some t /\ tr_eff t = Some wm /\ is_min wm (tr_src t) /\
+               ts < wm /\ forall s, In s (consumers streams ty) -> ts < wm - lateness s.
+Proof.
+  intros streams ops ty ts Hok e Hdrop.
+  destruct (load_ok streams) as [Hl1 Hl2].
+  destruct (erun_ok ops _ Hok Hl1) as [He Hs]. fold e in He, Hs. rewrite Hl2 in Hs.
+  unfold e_event in Hdrop. unfold e_ok in He. destruct (e_tr e) as [t|] eqn:Et; [|discriminate].
+  destruct (gate_pass (tr_eff t) (e_streams e) ty ts) eqn:Eg; [discriminate|].
+  destruct (gate_drop _ _ _ _ Eg) as (wm & Hw & Hlt & Hall). rewrite Hs in Hall.
+  exists t, wm. split; [reflexivity|]. split; [exact Hw|]. split; [|split; assumption].
+  pose proof (eff_ok_spec t He) as Hm. now rewrite Hw in Hm.
+Qed.
+
+(* The gate on its own, for every effective watermark and configuration. *)
+Theorem C24_gate : forall eff streams ty ts,
+  gate_pass eff streams ty ts = false ->
+  exists wm, eff = Some wm /\ ts < wm /\ forall s, In s (consumers streams ty) -> ts < wm - lateness s.
+Proof. exact gate_drop. Qed.
+
+(* Remarks (allowed by the statement): the effective watermark itself may decrease when a
+   new source reports its first, lower watermark; and registering an existing source again
+   resets it (it is a new source afterwards). *)
+Example C24_effective_may_decrease :
+  tr_eff (fold_left wstep [Obs 0 10] tr_new) = Some 10 /\
+  tr_eff (fold_left wstep [Obs 0 10; Obs 1 5] tr_new) = Some 5 /\ ops_ok tr_new [Obs 0 10; Obs 1 5].
+Proof. vm_compute. repeat split. Qed.
+
+Example C24_reregistration_resets :
+  wm_of (fold_left wstep [Obs 0 10] tr_new) 0 = Some 10 /\
+  wm_of (fold_left wstep [Obs 0 10; Reg 0 2] tr_new) 0 = None /\ ~ ops_ok tr_new [Obs 0 10; Reg 0 2].
+Proof. vm_compute. repeat split. intros [_ [H _]]. discriminate. Qed.
+
+(* Non-vacuity: a program and a history in which one late event is admitted (within the
+   allowed lateness) and one is dropped. *)
+Example C24_example :
+  let streams := [mkCfg 0 (Some 2) (Some 3); mkCfg 1 None None] in
+  let ops := [Ev 0 10; Ev 1 20] in
+  eops_ok (load_streams streams) ops /\
+  snd (e_event (fold_left enext ops (load_streams streams)) 0 5) = true /\
+  snd (e_event (fold_left enext ops (load_streams streams)) 0 4) = false /\
+  snd (e_event (fold_left enext ops (load_streams streams)) 1 7) = false.
+Proof. vm_compute. repeat split. Qed.
